@@ -40,6 +40,14 @@ AtOne == [ln |-> 0, arccos |-> 0, arccosh |-> 0, arcsec |-> 0, arcsech |-> 0]
 Fun(f, x) == IF f \in DOMAIN AtZero /\ IsDef(x) /\ x.n = 0 THEN I(AtZero[f])
              ELSE IF f \in DOMAIN AtOne /\ IsDef(x) /\ QEq(x, I(1)) THEN I(AtOne[f]) ELSE Undef
 
+\* reciprocal families, exact through their defining identities:  csc(x) * sin(x) = 1 ;  sin(arccsc(x)) * x = 1  (x a rational of the domain)
+Recip == [csc |-> "sin", cot |-> "tan", csch |-> "sinh", coth |-> "tanh", sec |-> "cos", sech |-> "cosh"]
+InvOf == [arccsc |-> "sin", arccot |-> "tan", arccsch |-> "sinh", arccoth |-> "tanh", arcsec |-> "cos", arcsech |-> "cosh"]
+InDomain(a, x) == IsDef(x) /\ x.n # 0 /\
+    CASE a \in {"arccsc", "arcsec"} -> ~QLt(QMul(x, x), I(1))
+      [] a = "arccoth" -> QLt(I(1), QMul(x, x))
+      [] a = "arcsech" -> QLt(I(0), x) /\ ~QLt(I(1), x)
+      [] OTHER -> TRUE
 \* ---------------------------------------------------------------- trees
 Ci(v) == [op |-> "ci", name |-> v]
 Cn(n, d) == [op |-> "cn", n |-> n, d |-> d]
@@ -74,7 +82,13 @@ Eval(t, env) ==
          LET v == [i \in DOMAIN t.args |-> Eval(t.args[i], env)] IN
          CASE t.op = "plus" -> IF Len(v) = 1 THEN v[1] ELSE Fold(QAdd, v, 2, v[1])
            [] t.op = "minus" -> IF Len(v) = 1 THEN QNeg(v[1]) ELSE QAdd(v[1], QNeg(v[2]))
-           [] t.op = "times" -> Fold(QMul, v, 2, v[1])
+           [] t.op = "times" ->
+                IF Len(t.args) = 2 /\ t.args[1].op \in DOMAIN Recip /\ t.args[2].op = Recip[t.args[1].op] /\ t.args[1].args = t.args[2].args
+                THEN LET x == Eval(t.args[1].args[1], env) IN IF IsDef(x) /\ x.n # 0 THEN I(1) ELSE Undef
+                ELSE IF Len(t.args) = 2 /\ t.args[1].op \in {InvOf[a] : a \in DOMAIN InvOf} /\ "args" \in DOMAIN t.args[1] /\ t.args[1].args[1].op \in DOMAIN InvOf
+                        /\ InvOf[t.args[1].args[1].op] = t.args[1].op /\ t.args[1].args[1].args[1] = t.args[2]
+                THEN (IF InDomain(t.args[1].args[1].op, v[2]) THEN I(1) ELSE Undef)
+                ELSE Fold(QMul, v, 2, v[1])
            [] t.op = "divide" -> QDiv(v[1], v[2])
            [] t.op = "power" -> QPow(v[1], v[2])
            [] t.op = "root" -> QRoot(v[1], 2)
